@@ -63,9 +63,14 @@ def run_case(ck, paths, reftool, idx):
         seqs = [s + "".join(rng.choice(gen.AA_ONLY) for _ in range(len(s) // 3 + 1)) for s in seqs]
     if rng.random() < 0.25:
         seqs = [gen.random_case(rng, s, 0.4) for s in seqs]
-    names = gen.names(rng, n, rng.choice(["s", "rand", "num"]))
+    names = gen.names(rng, n, rng.choice(["s", "rand", "num", "prefix", "long"]))
     recs = list(zip(names, seqs))
-    source = rng.choice(["runs", "runs", "files_random", "files_kalign_vs_random", "identity"])
+    source = rng.choice(["runs", "runs", "files_random", "files_kalign_vs_random", "identity", "files_with_allgap_row"])
+    allgap_row = None
+    if source == "files_with_allgap_row":
+        # a row without residues (e.g. a slice of a larger alignment): every residue of the other rows is related to a gap in it
+        source = "files_random"
+        allgap_row = "empty_row_%d" % idx
     ctx = {"idx": idx, "kind": kind, "source": source, "input": recs if sum(map(len, seqs)) < 6000 else "(seed-derived)"}
     f = ck.tmp(".fa")
     common.write_bytes(f, fmt.write_fasta(recs))
@@ -105,6 +110,10 @@ def run_case(ck, paths, reftool, idx):
             R = random_alignment(rng, recs, rng.choice([0.1, 0.4]))
             T = add_allgap_columns(rng, R, rng.randint(0, 5))
             want100 = True
+        if allgap_row is not None and source == "files_random":
+            R = R + [(allgap_row, "-" * len(R[0][1]))]
+            T = T + [(allgap_row, "-" * len(T[0][1]))]
+            ck.count("pairs_with_an_all_gap_row")
         # premise: each file contains at least one gap character
         if not any("-" in s for _, s in R):
             R = add_allgap_columns(rng, R, 1)
